@@ -196,7 +196,11 @@ def run_chunk(arg):
     data, layout_specs, items = arg
     w = yv.get_worker("plain")
     rules = "\n".join("rule c%d { condition: %s }" % (i, cond) for i, (tag, cond) in enumerate(items))
-    text = 'import "hash" import "math" import "string"\n' + rules
+    # evaluated first in every scan: an `of` expression over a non-empty set and module calls with an undefined argument - whatever bookkeeping they leave in the
+    # VM's locals must not leak into the calls that follow (all rules of a scan run in one yr_execute_code invocation)
+    pre = ('rule pre1 { strings: $p = "zq" $q = "qz" condition: 1 of them or 2 of ($p, $q) or true }\n'
+           'rule pre2 { condition: hash.md5(0, uint8(100000)) == "x" or math.to_string(uint8(100000)) == "x" or string.to_int("99999999999999999999") == 1 or true }\n')
+    text = 'import "hash" import "math" import "string"\n' + pre + rules
     rep = w.batch(["reset", "compiler 0", "add 0 - " + yv.hx(text), "getrules 0 0", "cdestroy 0", "scanner 0 0"] +
                   ["scan target=s0 via=%s ml=0 data=%s %s" % ("mem" if spec is None else "blocks", yv.hx(data), "" if spec is None else "blocks=" + spec) for spec in layout_specs])
     if rep[2]["errors"]:
